@@ -192,8 +192,17 @@ func checkC08(c c08Case) (v verdict) {
 			v = bad(true, nil, "call %d: %s = %q = %x; the next %d unused bytes of the random source are %x = %q: %s", i, what, text, b, n, want, ref.B32(want), where)
 			return false
 		}
-		if back, derr := otp.DecodeSecret(text); derr != nil || !bytes.Equal(back, b) {
+		back, derr := otp.DecodeSecret(text)
+		if derr != nil || !bytes.Equal(back, b) {
 			v = bad(true, nil, "call %d: DecodeSecret(%s) = %x, %v; want %x", i, what, back, derr, b)
+			return false
+		}
+		// the decoded key is the caller's (who wipes it after use): decoding the same text again still gives those bytes
+		for k := range back {
+			back[k] = 0
+		}
+		if again, aerr := otp.DecodeSecret(text); aerr != nil || !bytes.Equal(again, b) {
+			v = bad(true, nil, "call %d: after the caller wiped the key it had decoded, DecodeSecret(%s) = %x, %v; want %x", i, what, again, aerr, b)
 			return false
 		}
 		return true
